@@ -17,12 +17,24 @@ var c03Printers = []Cfg{CfgCompact, CfgPretty, CfgPrettyTabN}
 
 // checkRoundTrip prints prog under every printer, re-parses, compares shape and checks the fixed point.
 func checkRoundTrip(t *fw.T, prog *ast.Program, want string, label string, desc func() string) {
+	// every second case prints through this worker's long-lived Compiler values (one per printer) instead of fresh ones:
+	// a printer is a value that users keep, and what it remembers from the previous program must not show in this one
+	reused := (t.Index/16)%2 == 1 // case i runs on worker i mod 16: every worker alternates
+	if reused {
+		label += "/long-lived compiler"
+		t.Count("round_trips_through_a_long_lived_compiler", 1)
+	}
 	for _, k := range c03Printers {
+		k := k
+		compile := k.Compile
+		if reused {
+			compile = k.CompileReused
+		}
 		var code string
 		wit := func() map[string]any {
-			return map[string]any{"tree": desc(), "printer": k.String(), "printed": code, "expected_shape": want}
+			return map[string]any{"tree": desc(), "printer": k.String(), "printed": code, "expected_shape": want, "long_lived_compiler": reused}
 		}
-		if !t.Guard("compile assembled tree", wit, func() { code = k.Compile(prog).Code }) {
+		if !t.Guard("compile assembled tree", wit, func() { code = compile(prog).Code }) {
 			continue
 		}
 		var po ParseOut
@@ -48,7 +60,7 @@ func checkRoundTrip(t *fw.T, prog *ast.Program, want string, label string, desc 
 			continue
 		}
 		var again string
-		if !t.Guard("compile re-parsed tree", wit, func() { again = k.Compile(po.Prog).Code }) {
+		if !t.Guard("compile re-parsed tree", wit, func() { again = compile(po.Prog).Code }) {
 			continue
 		}
 		if again != code {
@@ -230,6 +242,74 @@ func checkEditedAfterPrint(t *fw.T, r *rand.Rand, e *gen.Node) {
 	}
 }
 
+// literal operands: every operator kind x operand slot x every kind of primary expression (number shapes, strings with
+// a line continuation, single- and multi-line backtick strings, array / object literals, function expressions, keywords
+// literals), alone and one level down. A literal that spans several lines or ends in a digit / dot / brace is what the
+// token after it sees; the depth-3 enumeration only has identifiers at its leaves.
+var c03Atoms = []func() *gen.Node{
+	func() *gen.Node { return gen.Num("0") },
+	func() *gen.Node { return gen.Num("7") },
+	func() *gen.Node { return gen.Num("1.5") },
+	func() *gen.Node { return gen.Num("2e3") },
+	func() *gen.Node { return gen.Num("0x1F") },
+	func() *gen.Node { return gen.Num("0b101") },
+	func() *gen.Node { return gen.Str("s") },
+	func() *gen.Node { return gen.Str("") },
+	func() *gen.Node { return gen.Str("a\\\nb") },
+	func() *gen.Node { return &gen.Node{K: gen.KTpl, Text: "t"} },
+	func() *gen.Node { return &gen.Node{K: gen.KTpl, Text: ""} },
+	func() *gen.Node { return &gen.Node{K: gen.KTpl, Text: "a\nb"} },
+	func() *gen.Node { return &gen.Node{K: gen.KTpl, Text: "a\r\nb\n"} },
+	func() *gen.Node { return &gen.Node{K: gen.KTpl, Text: "\n"} },
+	func() *gen.Node { return &gen.Node{K: gen.KArr} },
+	func() *gen.Node { return &gen.Node{K: gen.KArr, Kids: []*gen.Node{gen.Id("q"), gen.Num("1")}} },
+	func() *gen.Node { return &gen.Node{K: gen.KObj} },
+	func() *gen.Node { return &gen.Node{K: gen.KObj, Kids: []*gen.Node{gen.Id("k"), gen.Num("1")}} },
+	func() *gen.Node { return &gen.Node{K: gen.KFunc, Params: []string{"x"}, Kids: []*gen.Node{{K: gen.KReturn, Kids: []*gen.Node{gen.Id("x")}}}} },
+	func() *gen.Node { return &gen.Node{K: gen.KFunc, Name: "g"} },
+	func() *gen.Node { return &gen.Node{K: gen.KBool, Name: "true"} },
+	func() *gen.Node { return &gen.Node{K: gen.KBool, Name: "false"} },
+	func() *gen.Node { return &gen.Node{K: gen.KNull} },
+}
+
+type atomCase struct{ k, slot, atom int }
+
+var c03AtomCases []atomCase
+
+func init() {
+	for ki, k := range c03Kinds {
+		for si, sl := range k.slots {
+			if sl == slotTarget {
+				continue
+			}
+			for ai := range c03Atoms {
+				c03AtomCases = append(c03AtomCases, atomCase{ki, si, ai})
+			}
+		}
+	}
+}
+
+func runC03Atoms(t *fw.T) {
+	ac := c03AtomCases[t.Index]
+	k := c03Kinds[ac.k]
+	nx := 0
+	e := fill(k, ac.slot, c03Atoms[ac.atom](), &nx)
+	checkAssembled(t, e, "literal-operand")
+	t.Feature("operator kind x literal operand", fmt.Sprintf("%s[%d] %d", k.name, ac.slot, ac.atom))
+	// one level down: the same node as operand of every unary / postfix / member kind and of one binary kind
+	for _, pk := range c03Kinds {
+		if len(pk.slots) != 1 && pk.name != "-" && pk.name != "call" && pk.name != "idx" {
+			continue
+		}
+		if !k.fits(pk.slots[0]) {
+			continue
+		}
+		nx = 0
+		inner := fill(k, ac.slot, c03Atoms[ac.atom](), &nx)
+		checkAssembled(t, fill(pk, 0, inner, &nx), "literal-operand")
+	}
+}
+
 // random assembled expressions of larger depth, operands unrestricted except the quantifier's restrictions
 func randAssembled(r *rand.Rand, d int, slot slotKind) *gen.Node {
 	atom := func() *gen.Node {
@@ -242,6 +322,8 @@ func randAssembled(r *rand.Rand, d int, slot slotKind) *gen.Node {
 			return &gen.Node{K: gen.KArr, Kids: []*gen.Node{gen.Id("q")}}
 		case 3:
 			return &gen.Node{K: gen.KBool, Name: "true"}
+		case 4:
+			return c03Atoms[r.IntN(len(c03Atoms))]()
 		default:
 			return gen.Id(leafNames[r.IntN(len(leafNames))])
 		}
@@ -317,6 +399,7 @@ func init() {
 		},
 		Strata: []*fw.Stratum{
 			{Name: "exhaustive-depth3", Quick: n, Thorough: n, Exhaustive: true, Run: runC03Exhaustive},
+			{Name: "literal-operands", Quick: len(c03AtomCases), Thorough: len(c03AtomCases), Exhaustive: true, Run: runC03Atoms},
 			{Name: "random-assembled", Quick: 150000, Thorough: 1000000, Run: runC03Random},
 			{Name: "parsed-trees", Quick: 30000, Thorough: 200000, Run: runC03Parsed},
 		},
